@@ -707,7 +707,15 @@ static void c17_end(Run &run) {
       // and restarts the regression period)
       int64_t last_valid = -1, fm = -1;
       for (auto &rs : W.resps) if (rs.server == (int)sidx && !rs.tcp && !rs.read_times.empty() && cookie_of(rs.msg).size() >= 16) for (int64_t t : rs.read_times) if (t > last_valid) last_valid = t;
-      for (auto &rs : W.resps) if (rs.server == (int)sidx && !rs.tcp && !rs.read_times.empty() && cookie_of(rs.msg).empty() && rs.rcode != 23) for (int64_t t : rs.read_times) if (t > last_valid && (fm < 0 || t < fm)) fm = t;
+      // ... counting only replies that still matched an outstanding query when they were read (others are never examined)
+      auto examined = [&](const Resp &rs, int64_t t) {
+        if (rs.tx < 0) return false;
+        int tok = W.txs[(size_t)rs.tx].token;
+        if (tok < 0 || tok >= (int)run.reqs.size()) return false;
+        const Req &q = run.reqs[(size_t)tok];
+        return q.t_done < 0 || q.t_done >= t;
+      };
+      for (auto &rs : W.resps) if (rs.server == (int)sidx && !rs.tcp && !rs.read_times.empty() && cookie_of(rs.msg).empty() && rs.rcode != 23) for (int64_t t : rs.read_times) if (t > last_valid && examined(rs, t) && (fm < 0 || t < fm)) fm = t;
       if (fm < 0 || r.t_submit < fm + 121LL * 1000000 || !W.servers[sidx].regress_active) old_enough = false;
       for (auto &ce : run.cookie_ctl) if (ce.server == (int)sidx && ce.t > fm) old_enough = false;   // support toggled again meanwhile: no claim
     }
@@ -741,6 +749,7 @@ static void c09_end(Run &run) {
   std::vector<long> fails(ns, 0);
   std::vector<int64_t> last_fail(ns, -1);
   std::vector<int> active = run.active_hist.empty() ? std::vector<int>() : run.active_hist[0].list;
+  uint32_t edit_end = 0;
   std::map<std::string, std::set<int>> group_qids;        // token|qname|type -> query ids seen
   std::map<std::string, int> qid_tx_count;                // group|qid -> transmissions
   std::map<std::string, int> probe_target;                // group|qid -> server, for transmissions classified as probes
@@ -749,7 +758,30 @@ static void c09_end(Run &run) {
   long delay_ms = run.cfg.retry_delay < 0 ? 5000 : run.cfg.retry_delay;
   bool rotate = run.eff_rotate != 0;
   for (auto &e : evs) {
-    if (e.kind == 2) { active = run.active_hist[(size_t)e.idx].list; for (size_t i = 0; i < ns; i++) if (std::find(active.begin(), active.end(), (int)i) == active.end()) { fails[i] = 0; last_fail[i] = -1; } continue; }
+    if (getenv("SIM_DBG_C09")) {
+      if (e.kind == 2) { fprintf(stderr, "C09 seq=%u edit list=[", e.seq); for (int a : run.active_hist[(size_t)e.idx].list) fprintf(stderr, "%d ", a); fprintf(stderr, "]\n"); }
+      else if (e.kind == 0) fprintf(stderr, "C09 seq=%u t=%lld state %s ok=%d\n", e.seq, (long long)run.srv_events[(size_t)e.idx].t, run.srv_events[(size_t)e.idx].server.c_str(), (int)run.srv_events[(size_t)e.idx].ok);
+      else { const Tx &x = W.txs[(size_t)e.idx]; fprintf(stderr, "C09 seq=%u t=%lld tx#%d srv=%d %s id=%u %s\n", e.seq, (long long)x.t, x.id, x.server, x.qname_lc.c_str(), (unsigned)x.msg.id, x.tcp ? "tcp" : "udp"); }
+    }
+    if (e.kind == 2) {
+      // a server absent from either the old or the new list is (or will be) a fresh entry: failures reported for it while
+      // the previous edit was still removing it do not carry over
+      std::vector<int> prev = active;
+      const Run::ActiveEv &ae = run.active_hist[(size_t)e.idx];
+      active = ae.list;
+      edit_end = ae.end_seq;
+      if (ae.applied) {
+        // the list the library reports after a successful edit is the list that was set (same set of servers)
+        std::vector<int> got; size_t p0 = 0; bool unknown = false;
+        while (p0 <= ae.got_csv.size() && !ae.got_csv.empty()) { size_t c = ae.got_csv.find(',', p0); std::string it = ae.got_csv.substr(p0, c == std::string::npos ? std::string::npos : c - p0); int si = c09_server_of_string(run, it); if (si < 0) unknown = true; got.push_back(si); if (c == std::string::npos) break; p0 = c + 1; }
+        std::vector<int> want; for (int a : ae.list) if (std::find(want.begin(), want.end(), a) == want.end()) want.push_back(a);
+        std::sort(got.begin(), got.end()); std::sort(want.begin(), want.end());   // reported in current priority order, not configuration order
+        if (unknown || got != want) { std::string w; for (int a : want) w += " " + std::to_string(a); run.violate("C09", "server_list_not_applied", "after a successful ares_set_servers_ports_csv() naming servers [" + w + " ] the channel reports '" + ae.got_csv + "'"); return; }
+        run.note("server_list_edit_checked");
+      }
+      for (size_t i = 0; i < ns; i++) if (std::find(active.begin(), active.end(), (int)i) == active.end() || std::find(prev.begin(), prev.end(), (int)i) == prev.end()) { fails[i] = 0; last_fail[i] = -1; }
+      continue;
+    }
     if (e.kind == 0) {
       const Run::SrvEv &se = run.srv_events[(size_t)e.idx];
       int si = c09_server_of_string(run, se.server);
@@ -759,7 +791,12 @@ static void c09_end(Run &run) {
     }
     const Tx &t = W.txs[(size_t)e.idx];
     if (t.tcp || t.server < 0 || t.msg.qd.empty() || !t.decode_err.empty()) continue;     // decisions about queued TCP frames are taken earlier than they reach the wire
-    if (std::find(active.begin(), active.end(), t.server) == active.end()) { run.note("tx_to_server_not_in_list"); continue; }
+    if (std::find(active.begin(), active.end(), t.server) == active.end()) {
+      // while the edit is being applied, queries of a server being removed may pass through other servers that are about to be removed
+      if (t.seq <= edit_end) { run.note("tx_to_server_not_in_list"); continue; }
+      run.violate("C09", "attempt_to_removed_server", "transmission of " + t.qname_lc + " (id " + std::to_string(t.msg.id) + ") went to server " + std::to_string(t.server) + ", which the last completed server-list edit removed");
+      return;
+    }
     std::string g = std::to_string(t.token) + "|" + t.qname_lc + "|" + std::to_string(t.msg.qd[0].type);
     std::string gq = g + "|" + std::to_string(t.msg.id);
     bool new_qid = group_qids[g].insert((int)t.msg.id).second;
@@ -773,8 +810,17 @@ static void c09_end(Run &run) {
     if (mn >= 0 && fails[(size_t)t.server] > 0) run.note("selection_with_failed_servers");
     // directed resend after an EDNS downgrade goes back to the same server
     bool directed = false;
+    // (the FORMERR may answer any earlier EDNS transmission of the query, not only the latest: a late reply to attempt n
+    //  can arrive after attempt n+1 was sent; only the first EDNS-less transmission of the query is the directed one)
     if (nth > 1 && !t.msg.opt()) {
-      for (size_t k = (size_t)e.idx; k-- > 0;) { const Tx &p = W.txs[k]; if (p.msg.id == t.msg.id && p.qname_lc == t.qname_lc && !p.msg.qd.empty() && p.msg.qd[0].type == t.msg.qd[0].type) { directed = p.server == t.server && (p.behaviour == B_FORMERR_NOOPT || p.behaviour == B_FORMERR_OPT) && p.msg.opt() != nullptr; break; } }
+      bool first_noopt = true, formerr_from_here = false;
+      for (size_t k = (size_t)e.idx; k-- > 0;) {
+        const Tx &p = W.txs[k];
+        if (p.token != t.token || p.msg.id != t.msg.id || p.qname_lc != t.qname_lc || p.msg.qd.empty() || p.msg.qd[0].type != t.msg.qd[0].type) continue;
+        if (!p.msg.opt()) first_noopt = false;
+        else if (p.server == t.server && (p.behaviour == B_FORMERR_NOOPT || p.behaviour == B_FORMERR_OPT)) formerr_from_here = true;
+      }
+      directed = first_noopt && formerr_from_here;
     }
     if (directed) { run.note("directed_resend"); continue; }
     if (probe_target.count(gq)) { run.violate("C09", "probe_retried", "probe copy of " + t.qname_lc + " (id " + std::to_string(t.msg.id) + ") was transmitted again (to server " + std::to_string(t.server) + ")"); return; }
@@ -785,13 +831,13 @@ static void c09_end(Run &run) {
     for (size_t k = 0; k < W.txs.size(); k++) { const Tx &p = W.txs[k]; if (p.api_seq == t.api_seq && p.qname_lc == t.qname_lc && !p.msg.qd.empty() && p.msg.qd[0].type == t.msg.qd[0].type && p.msg.id != t.msg.id) other_qid_same_call = true; }
     std::string why;
     if (!new_qid || nth != 1) why = "it is a retransmission of an existing query";
-    else if (!other_qid_same_call && !(t.token >= 0 && t.token < (int)run.reqs.size() && run.reqs[(size_t)t.token].t_submit <= t.t && (run.reqs[(size_t)t.token].t_done < 0 || run.reqs[(size_t)t.token].t_done >= t.t))) why = "no user request with that question was outstanding";   // the user's own frame may still be queued on a connecting TCP socket
+    else if (!other_qid_same_call && !(t.token >= 0 && t.token < (int)run.reqs.size() && run.reqs[(size_t)t.token].t_submit <= t.t)) why = "no user request with that question had been made";   // the user's own frame may still be queued on a connecting TCP socket; a probe copy that is itself re-sent (TC upgrade) may spawn the next probe after the user's request completed
     else if (chance == 0) why = "probing is disabled (retry chance 0)";
     else if (fails[(size_t)t.server] == 0) why = "the target has no failures";
     else if (last_fail[(size_t)t.server] >= 0 && t.t < last_fail[(size_t)t.server] + delay_ms * 1000) why = "the retry delay (" + std::to_string(delay_ms) + " ms) since its last failure has not passed";
     if (why.empty()) { probe_target[gq] = t.server; run.note("probe_sent"); continue; }
     std::string tab; for (int a : active) tab += " s" + std::to_string(a) + "=" + std::to_string(fails[(size_t)a]);
-    run.violate("C09", "attempt_to_demoted_server", "transmission of " + t.qname_lc + " (id " + std::to_string(t.msg.id) + ", #" + std::to_string(nth) + ") went to server " + std::to_string(t.server) + " with " + std::to_string(fails[(size_t)t.server]) + " consecutive failures; failure counts by configuration order:" + tab + (rotate ? " (rotation on)" : " (rotation off, expected server " + std::to_string(first_min) + ")") + "; not a legal probe because " + why);
+    run.violate("C09", "attempt_to_demoted_server", "transmission of " + t.qname_lc + " (id " + std::to_string(t.msg.id) + ", #" + std::to_string(nth) + ") went to server " + std::to_string(t.server) + " with " + std::to_string(fails[(size_t)t.server]) + " consecutive failures; failure counts by server:" + tab + ", current list order [" + [&]{ std::string o; for (int a : active) o += (o.empty() ? "" : " ") + std::to_string(a); return o; }() + "]" + (rotate ? " (rotation on)" : " (rotation off, expected server " + std::to_string(first_min) + ")") + "; not a legal probe because " + why);
     return;
   }
   // probe answers never reach a user callback
